@@ -15,9 +15,22 @@ V0416Characterised == \A c \in PartsOk(cfg.n, cfg.d) : \A x \in 0..(cfg.n - 1) :
      /\ (Len(c) = 1 => Reported_v0416(c, cfg.d, x) = {x})
      /\ (ReportCount_v0416(c, cfg.d, x) > 1 <=> \E i \in 1..(Len(c) - 1) : x >= StartOf(c, i + 1) - cfg.d /\ x < StartOf(c, i + 1) + cfg.d)
      /\ (\A i \in 2..Len(c) : (Sees(c, cfg.d, i, x) => (Local(c, cfg.d, i, x) + StartOf(c, i) + 2 * cfg.d * (i - 1) - cfg.d) # x))
+(* whatever dask merges, the repaired rule is exact on the merged partition; trimming/offsetting with the INPUT chunks is
+   wrong for some particle as soon as a merge happened *)
+SmallParts(n, d) == {p \in {<<a, n - a>> : a \in 1..(n-1)} \cup {q \in {<<a, b, n - a - b>> : a \in 1..(n-2), b \in 1..(n-2)} : q[3] >= 1} :
+                       \E i \in 1..Len(p) : p[i] < d}
+MergeExact == \A c \in SmallParts(cfg.n, cfg.d) : \A m \in LegalMerges(c, cfg.d) : \A x \in 0..(cfg.n - 1) :
+     ReportCount(m, cfg.d, x) = 1 /\ Reported(m, cfg.d, x) = {x}
+InputChunksHazard == \A c \in SmallParts(cfg.n, cfg.d) : \A m \in LegalMerges(c, cfg.d) :
+     (m # c /\ Len(m) > 1) => \E x \in 0..(cfg.n - 1) : ReportedFromInputChunks(c, m, cfg.d, x) # {x}
+MergesExist == (cfg.d >= 2 /\ cfg.n >= 3 * cfg.d) => \E c \in SmallParts(cfg.n, cfg.d) : \E m \in LegalMerges(c, cfg.d) : m # c /\ Len(m) > 1
+BallNotCube == \A r10 \in {10, 16, 25, 40, 60} : CornerOffset(r10) \in DiagonalOffsets(r10) /\ ~InBall(CornerOffset(r10), r10)
 (* 3-D chunkings to replay: products of 1-D partitions of the image extents used by the harness *)
 Extents == <<40, 44, 48>>
 ChunkFamilies == {<<<<40>>, <<44>>, <<48>>>>, <<<<20, 20>>, <<44>>, <<48>>>>, <<<<40>>, <<22, 22>>, <<24, 24>>>>, <<<<13, 13, 14>>, <<15, 15, 14>>, <<16, 16, 16>>>>,
-                  <<<<25, 15>>, <<30, 14>>, <<11, 37>>>>, <<<<8, 8, 8, 8, 8>>, <<44>>, <<12, 12, 12, 12>>>>, <<<<33, 7>>, <<9, 35>>, <<48>>>>}
-Emit == (done /\ cfg.n = 6 /\ cfg.d = 1) => \A f \in ChunkFamilies : PrintT(ToJson([extents |-> Extents, chunks |-> f]))
+                  <<<<25, 15>>, <<30, 14>>, <<11, 37>>>>, <<<<8, 8, 8, 8, 8>>, <<44>>, <<12, 12, 12, 12>>>>, <<<<33, 7>>, <<9, 35>>, <<48>>>>,
+                  \* chunks smaller than the overlap depth (4 for LoG/DoG, 6 for the template matcher): dask merges them
+                  <<<<12, 12, 13, 3>>, <<44>>, <<5, 43>>>>, <<<<3, 37>>, <<2, 2, 40>>, <<16, 16, 16>>>>, <<<<40>>, <<20, 21, 3>>, <<4, 4, 4, 36>>>>}
+Emit == (done /\ cfg.n = 6 /\ cfg.d = 1) => \A f \in ChunkFamilies : PrintT(ToJson([extents |-> Extents, chunks |-> f,
+              corner |-> [log25 |-> CornerOffset(25), zncc60 |-> CornerOffset(60)]]))
 =============================================================================
